@@ -667,6 +667,10 @@ func (u *URI) RequestURI() []byte {
 	var dst []byte
 	if u.DisablePathNormalizing {
 		dst = append(u.requestURI[:0], u.PathOriginal()...)
+		if len(dst) == 0 {
+			// (a request target has a path even when the URL has none)
+			dst = append(dst, '/')
+		}
 	} else {
 		dst = bytesconv.AppendQuotedPath(u.requestURI[:0], u.Path())
 	}
